@@ -21,7 +21,15 @@ Fixpoint value_eqb (a b : value) {struct a} : bool :=
          | x :: l', y :: m' => value_eqb x y && go l' m'
          | _, _ => false
          end) l m
-  | VMap l, VMap m | VStruct l, VStruct m =>
+  | VMap l, VMap m =>
+      (* a Go map has no order: equal as sets of key/value pairs (keys are unique on both sides) *)
+      Nat.eqb (List.length l) (List.length m) &&
+      (fix go (l : list (str * value)) : bool :=
+         match l with
+         | [] => true
+         | (k, x) :: l' => (match vlookup k m with Some y => value_eqb x y | None => false end) && go l'
+         end) l
+  | VStruct l, VStruct m =>
       (fix go (l m : list (str * value)) : bool :=
          match l, m with
          | [], [] => true
